@@ -30,7 +30,12 @@ ASSUMPTIONS = [
     'appended rows fit the table (same domain as C01 cells), appended keys are fresh identifiers different from every table name, '
     'appended values satisfy hdr_ok; write() is given an explicit list of comments; row data come as lists holding numpy '
     'scalars of the column type for floats (python ints / str otherwise) or as record arrays',
-    'a table key in mixed letter case (neither all-lower nor all-upper) is silently dropped by append(): outside the statement',
+    'a table key in mixed letter case (neither all-lower nor all-upper) is silently dropped by append(): outside the statement; '
+    'a table given under both NAME and name keeps only the lower-case entry: specified as is (Model.spec_rows)',
+    'domain of the theorems: Append.op_ok / hist_ok (decidable: hist_okb); the harness evaluates Append.in_domain on every '
+    'history it runs and reports histories_in_theorem_domain; write(comments=None) (time-stamped header) is not modelled',
+    'floats in histories have a text that is the same under str(numpy scalar) and repr(float): raw-mode write() respells '
+    'other values (1e+10 -> 10000000000.0), equal as numbers',
     'the model keeps the typed (record-array) view of the object also in raw mode; raw dumps are compared through Types.raw_of',
 ]
 
